@@ -135,10 +135,12 @@ class StructCore(object):
         return sz
 
     def __eq__(self, other):
+        if not isinstance(other, StructCore):
+            return False
         if (
             (self.packed == other.packed)
             and (self.union == other.union)
-            and (self.typdef == other.typedef)
+            and (self.typedef == other.typedef)
             and len(self.fields) == len(other.fields)
             and all((sf == of for sf, of in zip(self.fields, other.fields)))
         ):
